@@ -90,11 +90,14 @@ template <class P> using Pool = frg::slab_pool<P, MUTEX>;
 
 size_t f_pool_size(int pc) { return dispatch(pc, []<class P>(P &) -> size_t { return sizeof(Pool<P>); }); }
 void f_construct(int pc, void *mem) { dispatch(pc, [&]<class P>(P &plc) -> int { new (mem) Pool<P>(plc); return 0; }); }
-void *f_allocate(int pc, void *pool, size_t n) { return dispatch(pc, [&]<class P>(P &) -> void * { return static_cast<Pool<P> *>(pool)->allocate(n); }); }
-void *f_realloc(int pc, void *pool, void *p, size_t n) { return dispatch(pc, [&]<class P>(P &) -> void * { return static_cast<Pool<P> *>(pool)->realloc(p, n); }); }
-void f_free(int pc, void *pool, void *p) { dispatch(pc, [&]<class P>(P &) -> int { static_cast<Pool<P> *>(pool)->free(p); return 0; }); }
-void f_deallocate(int pc, void *pool, void *p, size_t n) { dispatch(pc, [&]<class P>(P &) -> int { static_cast<Pool<P> *>(pool)->deallocate(p, n); return 0; }); }
-size_t f_get_size(int pc, void *pool, void *p) { return dispatch(pc, [&]<class P>(P &) -> size_t { return static_cast<Pool<P> *>(pool)->get_size(p); }); }
+// odd policy indices go through the frg::slab_allocator facade (allocate / reallocate / free / deallocate / get_size),
+// even ones call the pool directly: both are public entry points of the same properties
+template <class P> using Facade = frg::slab_allocator<P, MUTEX>;
+void *f_allocate(int pc, void *pool, size_t n) { return dispatch(pc, [&]<class P>(P &) -> void * { auto pl = static_cast<Pool<P> *>(pool); if (pc & 1) return Facade<P>(pl).allocate(n); return pl->allocate(n); }); }
+void *f_realloc(int pc, void *pool, void *p, size_t n) { return dispatch(pc, [&]<class P>(P &) -> void * { auto pl = static_cast<Pool<P> *>(pool); if (pc & 1) return Facade<P>(pl).reallocate(p, n); return pl->realloc(p, n); }); }
+void f_free(int pc, void *pool, void *p) { dispatch(pc, [&]<class P>(P &) -> int { auto pl = static_cast<Pool<P> *>(pool); if (pc & 1) Facade<P>(pl).free(p); else pl->free(p); return 0; }); }
+void f_deallocate(int pc, void *pool, void *p, size_t n) { dispatch(pc, [&]<class P>(P &) -> int { auto pl = static_cast<Pool<P> *>(pool); if (pc & 1) Facade<P>(pl).deallocate(p, n); else pl->deallocate(p, n); return 0; }); }
+size_t f_get_size(int pc, void *pool, void *p) { return dispatch(pc, [&]<class P>(P &) -> size_t { auto pl = static_cast<Pool<P> *>(pool); if (pc & 1) return Facade<P>(pl).get_size(p); return pl->get_size(p); }); }
 size_t f_used_pages(int pc, void *pool) { return dispatch(pc, [&]<class P>(P &) -> size_t { return static_cast<Pool<P> *>(pool)->numUsedPages(); }); }
 } // namespace
 
